@@ -12,7 +12,10 @@ import (
 	"math/rand"
 	"os"
 	"path/filepath"
+	"runtime"
 	"strings"
+	"sync"
+	"time"
 
 	"github.com/f1bonacc1/process-compose/src/pclog"
 	"pcverif/coqfmt"
@@ -43,15 +46,26 @@ type observer struct {
 	id    string
 	tail  int
 	lines []string
+	mu    sync.Mutex
+	onSet func() // called inside SetLines (hand-over window)
 }
 
 func (o *observer) WriteString(line string) (int, error) {
+	o.mu.Lock()
 	o.lines = append(o.lines, line)
+	o.mu.Unlock()
 	return len(line), nil
 }
-func (o *observer) SetLines(lines []string) { o.lines = append(o.lines, lines...) }
-func (o *observer) GetTailLength() int      { return o.tail }
-func (o *observer) GetUniqueID() string     { return o.id }
+func (o *observer) SetLines(lines []string) {
+	o.mu.Lock()
+	o.lines = append(o.lines, lines...)
+	o.mu.Unlock()
+	if o.onSet != nil {
+		o.onSet()
+	}
+}
+func (o *observer) GetTailLength() int  { return o.tail }
+func (o *observer) GetUniqueID() string { return o.id }
 
 func lineOf(x uint64) string { return fmt.Sprintf("L%d", x) }
 func idOf(s string) uint64 {
@@ -108,6 +122,40 @@ func runCase(c *Case) {
 					}
 				}()
 				b.GetLogsAndSubscribe(get(op.ID, int(op.A)))
+			}()
+		case "subw":
+			// a writer becomes active exactly while the follower is handed its tail: with an atomic
+			// hand-over the write waits and is then delivered to the follower; expanded to OSub; OWrite
+			func() {
+				defer func() {
+					if r := recover(); r != nil {
+						c.Panic = fmt.Sprint(r)
+						ok = false
+					}
+				}()
+				o := get(op.ID, int(op.A))
+				done := make(chan struct{})
+				o.onSet = func() {
+					go func() { b.Write(lineOf(op.X)); close(done) }()
+					select {
+					case <-done:
+					case <-time.After(30 * time.Millisecond):
+					}
+				}
+				prev := b.GetLogLength()
+				b.GetLogsAndSubscribe(o)
+				o.onSet = nil
+				select {
+				case <-done:
+				case <-time.After(2 * time.Second):
+					buf := make([]byte, 1<<16)
+					n := runtime.Stack(buf, true)
+					c.Panic = "concurrent write never completed: " + string(buf[:n])
+					ok = false
+				}
+				c.Outs = append(c.Outs, []uint64{})
+				c.OutOK = append(c.OutOK, ok)
+				c.Lens = append(c.Lens, prev)
 			}()
 		case "subp":
 			b.Subscribe(get(op.ID, 0))
@@ -182,6 +230,10 @@ func genRandom(r *rand.Rand, next *uint64, maxOps int) *Case {
 			if r.Intn(25) == 0 {
 				burst = 60 + r.Intn(120) // cross the size+100 trimming point
 			}
+		case k < 50:
+			*next++
+			c.Ops = append(c.Ops, Op{K: "subw", ID: uint64(10 + i), A: pickInt(r, written), X: *next})
+			written++
 		case k < 60:
 			c.Ops = append(c.Ops, Op{K: "sub", ID: uint64(1 + r.Intn(4)), A: pickInt(r, written)})
 		case k < 63:
@@ -224,6 +276,8 @@ func opCoq(o Op) string {
 		return "OWrite " + coqfmt.N(o.X)
 	case "sub":
 		return "OSub " + coqfmt.N(o.ID) + " " + coqfmt.Z(o.A)
+	case "subw":
+		return "OSub " + coqfmt.N(o.ID) + " " + coqfmt.Z(o.A) + "; OWrite " + coqfmt.N(o.X)
 	case "subp":
 		return "OSubPlain " + coqfmt.N(o.ID)
 	case "unsub":
